@@ -552,6 +552,36 @@ RestartL(graceful, lazy, dmg, label) ==
 
 Restart(graceful, lazy, dmg) == RestartL(graceful, lazy, dmg, "")
 
+\* Restart during which the file of blob `victim` is found unreadable (truncated inside a
+\* record or inside its header): the blob is moved to the corrupted directory together with
+\* everything it held (its index file is removed); its id stays used for ever (C03 / C07 / C15).
+\* When nothing is left an eager start creates a fresh active blob.
+RestartCorrupt(graceful, lazy, victim) ==
+  LET bl0  == IF graceful /\ active # None THEN DumpAllIn(blob, {active}) ELSE blob
+      ids  == DOMAIN bl0 \ {victim}
+      nid  == (IF QuarIdsReserved THEN Max(usedIds) ELSE IF ids = {} THEN -1 ELSE Max(ids)) + 1
+      fresh == ids = {} /\ ~lazy
+      a2   == IF lazy THEN None ELSE IF ids = {} THEN nid ELSE Max(ids)
+      bl2  == [b \in ids |->
+                LET valid == bl0[b].ifcnt = Len(bl0[b].recs)
+                    mv    == IF valid THEN bl0[b].memv ELSE Regen(bl0[b].recs)
+                IN  IF b = a2 THEN [recs |-> bl0[b].recs, idx |-> "mem", memv |-> mv, ifcnt |-> bl0[b].ifcnt]
+                    ELSE IF bl0[b].recs = <<>> THEN [recs |-> <<>>, idx |-> "mem", memv |-> mv, ifcnt |-> bl0[b].ifcnt]
+                    ELSE [recs |-> bl0[b].recs, idx |-> "disk", memv |-> mv, ifcnt |-> Len(bl0[b].recs)]]
+  IN
+  /\ victim \in Ids
+  /\ act' = Act("restart", victim, 0, 0, (IF graceful THEN 1 ELSE 0) + (IF lazy THEN 2 ELSE 0) + 4, "corrupt")
+          \* f: bit 2 = a blob file is damaged; k carries the victim
+  /\ ret' = Ok
+  /\ blob' = IF fresh THEN bl2 @@ (nid :> NewBlob) ELSE bl2
+  /\ active' = a2
+  /\ slots' = SetToSortSeq(ids \ {a2}, <)
+  /\ nextId' = IF fresh THEN nid + 1 ELSE nid
+  /\ usedIds' = IF fresh THEN usedIds \cup {nid} ELSE usedIds
+  /\ quar' = quar \cup {victim}
+  /\ worker' = "running" /\ agedIds' = {}
+  /\ UNCHANGED opn
+
 \* every assignment of damage classes, for model checking
 Damages == [Ids -> {"keep", "lose", "stale"}]
 
